@@ -228,14 +228,15 @@ static void measure_case(const Grid& G, VList& L, Polygon& poly, int n, int64_t 
     if (verbose)
         fprintf(stderr, "list %s repetition {%s}: signed_area %.17g (expected %.17g) area %.17g (expected %.17g) perimeter %.17g (expected %.17Lg)\n", L.json().c_str(), rv.name.c_str(), got_signed,
                 exp_signed, got_area, exp_area, got_per, exp_per);
+    long double tol = 1e-12L * std::max<long double>(1.0L, exp_per);
+    bool ok_s = got_signed == exp_signed, ok_a = got_area == exp_area, ok_p = fabsl((long double)got_per - exp_per) <= tol;
+    if (ok_s && ok_a && ok_p) return;
     JFields tags = {{"n", jint(n)}, {"kind", jstr(rv.kind)}, {"zero_count", jbool(rv.zero_count)}, {"copies", juint(rv.own_count)}, {"below_three_vertices", jbool(n < 3)}};
     std::string cs = jobj({{"points", L.json()}, {"repetition", jstr(rv.name)}, {"grid", jint(G.g)}});
     std::string rp = "sub=measure " + list_replay(G, n, idx) + fmt(" rep=%d", ri);
-    if (!(got_signed == exp_signed)) R->violation("measure", "signed_area", tags, cs, fmt("signed_area() = %.17g, shoelace sum = %.17g (not multiplied by copies)", got_signed, exp_signed), rp);
-    if (!(got_area == exp_area)) R->violation("measure", "area", tags, cs, fmt("area() = %.17g, |shoelace| x %llu copies = %.17g", got_area, (unsigned long long)rv.own_count, exp_area), rp);
-    long double tol = 1e-12L * std::max<long double>(1.0L, exp_per);
-    if (!(fabsl((long double)got_per - exp_per) <= tol))
-        R->violation("measure", "perimeter", tags, cs, fmt("perimeter() = %.17g, closed edge-length sum x %llu copies = %.17Lg", got_per, (unsigned long long)rv.own_count, exp_per), rp);
+    if (!ok_s) R->violation("measure", "signed_area", tags, cs, fmt("signed_area() = %.17g, shoelace sum = %.17g (not multiplied by copies)", got_signed, exp_signed), rp);
+    if (!ok_a) R->violation("measure", "area", tags, cs, fmt("area() = %.17g, |shoelace| x %llu copies = %.17g", got_area, (unsigned long long)rv.own_count, exp_area), rp);
+    if (!ok_p) R->violation("measure", "perimeter", tags, cs, fmt("perimeter() = %.17g, closed edge-length sum x %llu copies = %.17Lg", got_per, (unsigned long long)rv.own_count, exp_per), rp);
 }
 
 static void list_case(const Grid& G, int n, int64_t idx, Acc& a, int only_q, int only_rep, bool verbose) {
@@ -474,7 +475,7 @@ static int replay() {
         Acc a;
         if (sub == "point") list_case(G, n, I("idx"), a, (int)I("qi"), -1, true);
         else if (sub == "measure") list_case(G, n, I("idx"), a, -1, (int)I("rep"), true);
-        else for (int64_t idx = I("idx"); idx < std::min(ipow(G.nv(), n), I("idx") + I("count")); idx++) list_case(G, n, idx, a, -1, -1, false);
+        else { int64_t lo = I("idx"), hi = std::min(ipow(G.nv(), n), lo + I("count")); for (int64_t idx = lo; idx < hi; idx++) list_case(G, n, idx, a, -1, -1, false); }
         a.flush();
         return R->finish();
     }
@@ -513,6 +514,7 @@ int main(int argc, char** argv) {
     // group functions
     run_groups(2, 3, 2);
     lap("groups g=2");
+    if (!T) run_groups(3, 2, 2);
     run_groups(3, 3, T ? 2 : 1);
     lap("groups g=3");
     if (T) { for (int n = 0; n <= 5; n++) run_lists(5, n); lap("lists g=5"); }
